@@ -74,10 +74,13 @@ SanRejects(pos, ms) ==
                               t \in {t \in Squares : ~\E y \in ms : Kind(b[y.f]) = "p" /\ FileOf(y.f) = f - 1 /\ y.t = t
                                                                      /\ FileOf(y.f) # FileOf(y.t)}} :
                           f \in 1..8, pr \in {""}}
+      \* a quiet move of an officer written as a capture: nothing stands on the square (an officer never captures en passant)
+      quietx == UNION {{UpperKind(Kind(b[y.f])) \o d \o "x" \o SqNameT[y.t] : d \in {"", FileCh(y.f), RankCh(y.f)}} :
+                          y \in {y \in ms : Kind(b[y.f]) \in officers /\ b[y.t] = Empty /\ ~IsCastle(pos, y)}}
       nocastle == {c \in {"O-O", "O-O-O"} : ~\E y \in ms : IsCastle(pos, y) /\ (FileOf(y.t) = 6) = (c = "O-O")}
       \* destinations that are not on the board at all
       offboard == {UpperKind(k) \o FileNames[f] \o d : k \in officers, f \in 1..8, d \in {"0", "9"}}
                   \cup {FileNames[f] \o d : f \in 1..8, d \in {"0", "9"}}
                   \cup {UpperKind(k) \o c \o RankNames[r] : k \in officers, c \in {"i", "j"}, r \in 1..8}
-  IN ambiguous \cup ambfile \cup ambrank \cup nothing \cup wrongfile \cup pawnno \cup pawncapno \cup nocastle \cup offboard
+  IN ambiguous \cup ambfile \cup ambrank \cup nothing \cup wrongfile \cup pawnno \cup pawncapno \cup quietx \cup nocastle \cup offboard
 =============================================================================
